@@ -46,6 +46,9 @@ namespace OpenMEEG {
         if (ncol()>nlin())
             return transpose().pinverse(tolrel).transpose();
 
+        if (ncol()==0) // Empty matrix: there is no singular value to compare with.
+            return Matrix(ncol(),nlin());
+
         Matrix U,V;
         SparseMatrix S;
         svd(U,S,V,false);
